@@ -32,6 +32,17 @@ manifest = {
     "not_applicable": [],
     "notes": "Every check decides *structural necessary conditions* of its property from /repo's current source (see DESIGN.md §4 for the clause list per property and what is explicitly not decided). Exit 2 / ERROR = checker fails closed (missing anchor, count below floor, extractor failure).",
 }
+# the rule names actually evaluated per property (so that level_note cannot drift from props.py)
+from vlib import facts as _facts  # noqa: E402
+import check as _check  # noqa: E402
+_F = _facts.load(None)
+RULES_OF = {}
+for pid in props.PROPS:
+    RULES_OF[pid] = []
+    for r_ in _check.run_rules(pid, _F, "quick"):
+        if r_.rule not in RULES_OF[pid]:
+            RULES_OF[pid].append(r_.rule)
+
 for pid in ALL:
     if pid in props.PROPS:
         sp = props.PROPS[pid]
@@ -47,7 +58,7 @@ for pid in ALL:
                 "text": sp["text"],
                 "design_ref": "DESIGN.md §4 " + pid,
             },
-            "level_note": sp["note"],
+            "level_note": sp["note"] + " Rules evaluated by this check (DESIGN.md §3): " + ", ".join(RULES_OF[pid]) + ".",
             "technique": sp["technique"],
         })
     else:
@@ -56,3 +67,17 @@ for pid in ALL:
 with open(os.path.join(VERIF, "MANIFEST.json"), "w") as fh:
     json.dump(manifest, fh, indent=1)
 print("MANIFEST.json: %d checks, %d not applicable" % (len(manifest["checks"]), len(manifest["not_applicable"])))
+
+# DESIGN.md §4: generated property → rules table
+import re  # noqa: E402
+dp = os.path.join(VERIF, "DESIGN.md")
+ds = open(dp).read()
+rows = ["| property | level | rules evaluated by its check | obligations today |", "|---|---|---|---|"]
+for pid in ALL:
+    if pid in props.PROPS:
+        n_ob = sum(r_.obligations for r_ in _check.run_rules(pid, _F, "quick"))
+        rows.append("| %s | %s | %s | %d |" % (pid, props.PROPS[pid]["level"], ", ".join(RULES_OF[pid]), n_ob))
+    else:
+        rows.append("| %s | not applicable | — | — |" % pid)
+ds = re.sub(r"<!-- PROP-TABLE-BEGIN -->.*<!-- PROP-TABLE-END -->", "<!-- PROP-TABLE-BEGIN -->\n" + "\n".join(rows) + "\n<!-- PROP-TABLE-END -->", ds, flags=re.S)
+open(dp, "w").write(ds)
